@@ -1,6 +1,9 @@
 package harness
 
-import "time"
+import (
+	"strings"
+	"time"
+)
 
 func (s *Scenario) faulty() *Scenario {
 	s.LatencyBound = 0
@@ -107,6 +110,15 @@ func generalPlan(tier string, faults bool) []PlanItem {
 		items = append(items, PlanItem{scnStop("stop/"+stopName(sv)+"-K1", K1, sv, "A", "B"), d})
 		items = append(items, PlanItem{scnRestart("restart/"+stopName(sv)+"-K1", K1, sv), d})
 	}
+	// decorated variants: the application's callbacks take time; every instance runs a
+	// health checker whose checks take 50 ms and succeed; takeover enabled at equal priority
+	items = append(items,
+		PlanItem{slowCallbacks(scnFailoverDel("failover-del2-K1", K1, "A", "B")), d},
+		PlanItem{slowCallbacks(scnRestart("restart/stop-K1", K1, Item{Do: "stop"})), d},
+		PlanItem{healthLate(scnFailoverDel("failover-del2-K1", K1, "A", "B")), d},
+		PlanItem{healthLate(scnRestart("restart/stop-K1", K1, Item{Do: "stop"})), d},
+		PlanItem{equalPrioTakeover(scnRestart("restart/stop-takeover-equal-K1", K1, Item{Do: "stop"})), d},
+		PlanItem{equalPrioTakeover(scnStop("stop/stopctx-del-takeover-equal-K1", K1, Item{Do: "stopctx", DeleteKey: true}, "A", "B")), d})
 	items = append(items,
 		PlanItem{scnRestartLate("restart-late/stop-K1", K1, Item{Do: "stop"}), d},
 		PlanItem{scnRestartLate("restart-late/stopctx-K1", K1, Item{Do: "stopctx"}), d},
@@ -126,6 +138,11 @@ func generalPlan(tier string, faults bool) []PlanItem {
 			PlanItem{scnTerms("terms-health-K1", K1, []string{"ok", "bad", "bad", "bad", "ok", "ok", "ok", "bad", "bad", "bad", "ok"}, 3, "A"), d},
 			PlanItem{scnTerms("terms-health2-K1", K1, []string{"ok", "bad", "bad", "ok"}, 2, "A", "B"), d},
 			PlanItem{scnPreempt("preempt-lowfirst-K1", K1, []InstSpec{{ID: "A", Priority: 1, Takeover: true}, {ID: "B", Priority: 2, Takeover: true}}, []string{"A", "B"}), d},
+			PlanItem{slowApp(scnFailoverDel("failover-del2-K1", K1, "A", "B")), d},
+			PlanItem{slowApp(scnPreempt("preempt-lowfirst-K1", K1, []InstSpec{{ID: "A", Priority: 1, Takeover: true}, {ID: "B", Priority: 2, Takeover: true}}, []string{"A", "B"})), d},
+			PlanItem{slowApp(scnRestart("restart/stop-K1", K1, Item{Do: "stop"})), d},
+			PlanItem{slowApp(scnFailoverTamper("failover-then-outside-delete-K1", K1, "delete")), d},
+			PlanItem{healthLate(scnPreempt("preempt-lowfirst-K1", K1, []InstSpec{{ID: "A", Priority: 1, Takeover: true}, {ID: "B", Priority: 2, Takeover: true}}, []string{"A", "B"})), d},
 			PlanItem{scnPreemptStop("preempt-then-stopdel-K1", K1), d},
 			PlanItem{scnPreemptDemotedStop("preempt-demoted-then-stopdel-K1-dropall", K1), d},
 			PlanItem{scnHealthWindowTakeover("takeover-inside-health-check-K1", K1), d},
@@ -297,6 +314,37 @@ func scnReelectSlowMetric(name string, k kfn) *Scenario {
 func equalPrioTakeover(s *Scenario) *Scenario {
 	for i := range s.Insts {
 		s.Insts[i].Priority, s.Insts[i].Takeover = 1, true
+	}
+	return s
+}
+
+// slowCallbacks: OnDemote takes 150 ms, OnPromote returns 300 ms after its context was
+// cancelled (neither runs under the election mutex).
+func slowCallbacks(s *Scenario) *Scenario {
+	s.Name += "/slow-callbacks"
+	for i := range s.Insts {
+		s.Insts[i].DemoteDur, s.Insts[i].PromoteLinger = 150*ms, 300*ms
+	}
+	s.Horizon += 600 * ms
+	return s
+}
+
+// slowApp: slowCallbacks plus a metrics backend that takes 120 ms to count a
+// LEADER->FOLLOWER transition (called under the election mutex).
+func slowApp(s *Scenario) *Scenario {
+	s = slowCallbacks(s)
+	s.Name = strings.TrimSuffix(s.Name, "/slow-callbacks") + "/slow-app"
+	for i := range s.Insts {
+		s.Insts[i].SlowDemoteMetric = 120 * ms
+	}
+	return s
+}
+
+// healthLate: every instance has a health checker whose checks take 50 ms and succeed.
+func healthLate(s *Scenario) *Scenario {
+	s.Name += "/health-late"
+	for i := range s.Insts {
+		s.Insts[i].Health = []string{"late"}
 	}
 	return s
 }
